@@ -475,6 +475,7 @@ func Round3Generic(c *Ctx, id string) {
 		genRound3(c, "input-null", "arg-absent", "args-ctx")
 		c07PoolReset(c) // variables of an earlier request must not reach this one's coercion
 	case "C04":
+		genRound3(c, "event-ctx")
 		genRound3(c, "handler-ctx")
 		errorTestedBeforeValue(c, "error-tested-before-value", true, pkgGraphql, pkgExecutor, pkgTransport)
 		recoverComparedWithNil(c, "recover-compared-with-nil", true, pkgGraphql, pkgTransport, pkgExecutor, pkgHandler)
